@@ -300,6 +300,22 @@ def gen_structure(rng, ctx, want_bonds, max_models=4):
                     r2 = max(r2, 1)
                 i = residues[r1][4] + (0 if r1 == 0 and rng.random() < 0.7 else int(rng.integers(residues[r1][5])))
                 j = residues[r2][4] + int(rng.integers(residues[r2][5]))
+                if rng.random() < 0.35:
+                    # a bond that shares exactly one end with the canonical link of its residue class (X-N, C-X, X-P, O3'-X)
+                    cand = [r for r in range(len(residues) - 1)
+                            if link_class(residues[r][3]) is not None and link_class(residues[r][3]) == link_class(residues[r + 1][3])]
+                    if cand:
+                        r1 = int(cand[int(rng.integers(len(cand)))])
+                        r2 = r1 + 1
+                        x, y = ("C", "N") if link_class(residues[r1][3]) == "peptide" else ("O3'", "P")
+                        nm1 = [a[0] for a in templates[residues[r1][3]][0]]
+                        nm2 = [a[0] for a in templates[residues[r2][3]][0]]
+                        if rng.random() < 0.5 and y in nm2:
+                            i = residues[r1][4] + int(rng.integers(residues[r1][5]))
+                            j = residues[r2][4] + nm2.index(y)
+                        elif x in nm1:
+                            i = residues[r1][4] + nm1.index(x)
+                            j = residues[r2][4] + int(rng.integers(residues[r2][5]))
                 if (i, j) in bonds:
                     continue
                 t = int(rng.choice(inter_types(ctx)))
@@ -627,14 +643,17 @@ def case_altloc(rng, ctx):
     atoms, coords_cols, alt, occ, resi = [], [], [], [], []
     ids = ["A", "B", "C"]
     for r, (chain, rid, ins, name, first, cnt) in enumerate(s["residues"]):
-        mode = str(rng.choice(["none", "some", "all"]))
+        mode = str(rng.choice(["none", "some", "all", "single"]))
         k = int(rng.integers(2, 4))
-        order = list(rng.permutation(ids[:k]))
+        if mode == "single" or rng.random() < 0.15:
+            k = 1                                   # one labelled conformer only (partial occupancy without a partner)
+        order = list(rng.permutation(ids[:max(k, 2)]))[:k]
         weights = rng.dirichlet(np.ones(k)).round(2)
         if rng.random() < 0.3:
             weights[:] = round(1.0 / k, 2)          # ties -> first in sorted order
+        lone = first + int(rng.integers(cnt))       # 'single': exactly one atom of the residue carries an alternate-location id
         for i in range(first, first + cnt):
-            dup = mode == "all" or (mode == "some" and rng.random() < 0.5)
+            dup = mode == "all" or (mode == "some" and rng.random() < 0.5) or (mode == "single" and i == lone)
             if dup:
                 for a_id, w in zip(order, weights):
                     atoms.append(dict(s["atoms"][i])); coords_cols.append(i); alt.append(str(a_id)); occ.append(float(w)); resi.append(r)
